@@ -3,6 +3,7 @@ from . import _stream as S
 
 PROP = "C12"
 LEVEL = "exploration"
+BLOCK = 32   # neighbouring configurations share a worker process
 RULE = ("all ten classes, grid + seeded random incl. cost vectors, all passes; executor rules on WORK contents and on Forward end points; non-trivial = >= 1 load and n >= 3; distinct = distinct (class, parameters, passes)")
 REQUIRED = ["C12.work_deps_at_most_one", "C12.load_into_empty_work", "C12.work_deps_single_adjacent", "C12.no_overshoot"]
 ASSUMPTIONS = ["executor semantics follow tests/test_validity.py",
